@@ -92,7 +92,7 @@ def to_bytes(text, syms, rng=None):
     out = bytearray()
     for ch, s in zip(text, syms):
         if s == "ux" and rng is not None and rng.random() < 0.5:
-            out.append(rng.randrange(0x80, 0x100))
+            out.append(rng.randrange(0xf8, 0x100))      # a byte that occurs in no UTF-8 sequence
         else:
             out += ch.encode("utf8")
     return bytes(out)
@@ -157,18 +157,29 @@ WORDSS = ["i", "n", "f", "a", "-", "sp", "gs", "us"]
 NONA = ["1", "_", ".", "e", "sp", "gs", "us", "u3"]
 BOTH = ("str", "bytes")
 FAMILIES = {
-    "core5": (CORE, 5, ("str",)), "core6": (CORES, 6, ("str",)), "core7": (CORE, 7, ("str",)),
+    "core5": (CORE, 5, ("str",)), "core6": (CORE, 6, ("str",)), "cores5": (CORES, 5, ("str",)),
     "wide3": (WIDE, 3, BOTH), "wide4": (WIDE, 4, BOTH),
-    "words5": (WORDS, 5, ("str",)), "words6": (WORDSS, 6, BOTH),
+    "words5": (WORDS, 5, ("str",)), "words6": (WORDS, 6, ("str",)), "wordss5": (WORDSS, 5, BOTH),
     "nona4": (NONA, 4, BOTH), "nona5": (NONA, 5, BOTH),
 }
 TIER_FAMILIES = {"quick": ["core5", "wide3", "words5", "nona4"],
-                 "thorough": ["core6", "core7", "wide4", "words6", "nona5"]}
+                 "thorough": ["core6", "cores5", "wide4", "words6", "wordss5", "nona5"]}
 
 
 def family_size(name):
     alpha, n, modes = FAMILIES[name]
     return len(modes) * sum(len(alpha) ** k for k in range(n + 1))
+
+
+def covered_by(fams, mode, syms):
+    """is (mode, syms) replayed as a member of one of these families?  A family enumerated in mode "str" only
+    also replays the bytes image of its ASCII-only strings."""
+    for f in fams:
+        alpha, n, modes = FAMILIES[f]
+        if len(syms) <= n and all(s in alpha for s in syms):
+            if mode in modes or (modes == ("str",) and is_ascii_syms(syms)):
+                return True
+    return False
 
 
 def family_strings(name):
@@ -241,8 +252,11 @@ def gen_records(tier, rng):
     """-> list of {"id", "mode", "s"}"""
     recs = []
 
+    dedup = set()
+
     def add(mode, s):
-        if len(s) <= 120:
+        if len(s) <= 120 and (mode, tuple(s)) not in dedup:
+            dedup.add((mode, tuple(s)))
             recs.append({"id": len(recs) + 1, "mode": mode, "s": list(s)})
 
     num_alpha = list(DIGITS) + ["_", "_", ".", "e", "+", "-", "sp", "x", "nul", "gs"]
